@@ -164,6 +164,32 @@ def search(ctx, hints):
     res['distinct_nontrivial'] = st.get('ops', 0) - st.get('kinds', {}).get('tx', 0) - st.get('kinds', {}).get('blk', 0)
     res['violations'] = _violations(st, 'searcher')
     res['stats'] = {k: v for k, v in st.items() if k != 'violations'}
+    res['concurrency_evidence'] = ('%d concurrent-delivery steps (several goroutines delivering, one reading) followed by the '
+                                   'ChainInv monitor; evidence, not proof' % st.get('kinds', {}).get('par', 0))
+    if ctx.thorough():
+        # the same under the race detector (a DATA RACE report makes the scenario process exit non-zero)
+        rbin, rlog = vlib.go_build(ctx, vlib.HARNESS, './cmd/c05', 'c05race', race=True)
+        if not rbin:
+            res['error'] = 'race build failed: ' + rlog[-800:]
+            return res
+        cwd2 = ctx.scratch('c05-race')
+        rc, so, se = vlib.run([rbin, 'ops=' + ops + '.race', 'obs=' + obs + '.race', 'tier=' + ctx.tier, 'mode=search', 'n=300', 'workers=12'],
+                              cwd=cwd2, env=dict(VERIF_SEED=str(ctx.seed + 1), GOMEMLIMIT='8GiB'), timeout=1500)
+        shutil.rmtree(cwd2, ignore_errors=True)
+        st2 = None
+        for line in so.split('\n'):
+            if line.startswith('STATS '):
+                try:
+                    st2 = json.loads(line[6:])
+                except Exception:
+                    pass
+        if rc != 0 or st2 is None:
+            res['error'] = 'race run failed rc=%d %s' % (rc, (se or so)[-600:])
+            return res
+        res['evaluations'] += st2.get('ops', 0)
+        res['violations'] += _violations(st2, 'searcher under -race')
+        res['concurrency_evidence'] += '; -race build: %d more steps, %d scenario processes died' % (
+            st2.get('kinds', {}).get('par', 0), st2.get('child_failures', 0))
     try:
         with open(ops) as fo, open(obs) as fb:
             for i, (o, x) in enumerate(zip(fo, fb)):
